@@ -1,1 +1,1457 @@
-//! (reference model; owner fills this in)
+//! Reference model for property C06: how TeX scans, prints and computes integers, dimensions
+//! and glue. Our own transcription of *TeX: The Program*:
+//!
+//! * printing: `print_int` §65, `round_decimals` §102, `print_scaled` §103, `print_glue` §177,
+//!   `print_spec` §178, `the_toks` §465 (registers only);
+//! * arithmetic: `mult_and_add` §105 (`nx_plus_y`, `mult_integers`), `x_over_n` §106,
+//!   `xn_over_d` §107 - evaluated in exact 64-bit arithmetic with TeX's `arith_error` conditions;
+//! * scanning: `scan_keyword` §407, `scan_something_internal` §413 restricted to the registers
+//!   `\count`, `\dimen`, `\skip` with the coercions of §429-431, `scan_int` §440-445,
+//!   `scan_dimen` §448-458 (17-digit rule §452, internal quantities as units §455, units table
+//!   §458, `em`/`ex`, `sp`; no `true`, no `mu`), `scan_glue` §461;
+//! * `do_register_command` §1236-1240 (`\count n=`, `\advance`, `\multiply`, `\divide`).
+//!
+//! The scanner works on a token list produced by a small lexer (`lex`) for one line of text under
+//! plain TeX's category codes, so that the procedures below can be read side by side with the
+//! WEB source (`get_x_token`, `back_input`, `cur_tok`, `radix` ... keep their names).
+//!
+//! Anything for which TeX would report an error other than the four modelled ones (Number too
+//! big, Dimension too large, Arithmetic overflow, Illegal unit replaced by filll) makes the model
+//! return `Err(Ood)`: the input lies outside the property's quantifier.
+//!
+//! **Ambiguity.** TeX never negates -2^31 on purpose; where one of its algorithms would have to
+//! (`negate(cur_val)` in scan_int/scan_dimen, `negate(x)` in mult_and_add / x_over_n) the result
+//! depends on the Pascal/C implementation. The model computes the exact value and raises
+//! `ambiguous`; the monitor then only requires "no crash".
+//!
+//! **Deviation switches.** `Deviations` replaces single rules by what the implementation under
+//! test does today (known findings). `fired` records whether a switched rule actually produced a
+//! different result than TeX's rule (the trigger predicate). All switches off = TeX.
+//!
+//! This file must not depend on anything from /repo.
+
+pub const UNITY: i64 = 1 << 16;
+pub const MAX_DIMEN: i64 = (1 << 30) - 1;
+pub const INFINITY: i64 = (1 << 31) - 1;
+pub const MIN32: i64 = -(1 << 31);
+
+// ------------------------------------------------------------------------------------------
+// Printing
+// ------------------------------------------------------------------------------------------
+
+/// §65 print_int (Knuth treats -2^31 explicitly, so every 32-bit value is well defined).
+pub fn print_int(n: i64) -> String {
+    format!("{n}")
+}
+
+/// §102 round_decimals: the scaled value nearest to `.d0 d1 ... d(k-1)`.
+pub fn round_decimals(digits: &[u8]) -> i64 {
+    let mut a: i64 = 0;
+    let mut k = digits.len();
+    while k > 0 {
+        k -= 1;
+        a = (a + (digits[k] as i64) * 2 * UNITY) / 10;
+    }
+    (a + 1) / 2
+}
+
+/// §103 print_scaled, appended to `out` (no unit). Exact arithmetic: `s` may be -2^31.
+pub fn print_scaled_into(mut s: i64, out: &mut String) {
+    if s < 0 {
+        out.push('-');
+        s = -s;
+    }
+    // print_int(s div unity)
+    let ip = s / UNITY;
+    if ip >= 10 {
+        let mut buf = [0u8; 20];
+        let mut n = 0;
+        let mut v = ip;
+        while v > 0 {
+            buf[n] = b'0' + (v % 10) as u8;
+            v /= 10;
+            n += 1;
+        }
+        while n > 0 {
+            n -= 1;
+            out.push(buf[n] as char);
+        }
+    } else {
+        out.push((b'0' + ip as u8) as char);
+    }
+    out.push('.');
+    s = 10 * (s % UNITY) + 5;
+    let mut delta: i64 = 10;
+    loop {
+        if delta > UNITY {
+            s = s + 0o100000 - 50000; // round the last digit
+        }
+        out.push((b'0' + (s / UNITY) as u8) as char);
+        s = 10 * (s % UNITY);
+        delta *= 10;
+        if s <= delta {
+            break;
+        }
+    }
+}
+
+pub fn print_scaled(s: i64) -> String {
+    let mut out = String::new();
+    print_scaled_into(s, &mut out);
+    out
+}
+
+#[derive(Clone, Copy, Debug, PartialEq, Eq, PartialOrd, Ord, Hash)]
+pub enum Order {
+    Normal,
+    Fil,
+    Fill,
+    Filll,
+}
+
+impl Order {
+    pub fn index(self) -> u8 {
+        self as u8
+    }
+}
+
+#[derive(Clone, Copy, Debug, PartialEq, Eq, Hash)]
+pub struct Glue {
+    pub width: i64,
+    pub stretch: i64,
+    pub stretch_order: Order,
+    pub shrink: i64,
+    pub shrink_order: Order,
+}
+
+impl Glue {
+    pub const ZERO: Glue = Glue {
+        width: 0,
+        stretch: 0,
+        stretch_order: Order::Normal,
+        shrink: 0,
+        shrink_order: Order::Normal,
+    };
+    /// The order of a zero stretch/shrink cannot be observed through `\the` nor through
+    /// §1239 (which normalises it) nor §1240; `trap_zero_glue` §1229 even replaces an all-zero
+    /// glue by `zero_glue`. Values are compared in this canonical form.
+    pub fn canonical(mut self) -> Glue {
+        if self.stretch == 0 {
+            self.stretch_order = Order::Normal;
+        }
+        if self.shrink == 0 {
+            self.shrink_order = Order::Normal;
+        }
+        self
+    }
+}
+
+/// §177 print_glue
+pub fn print_glue(d: i64, order: Order, unit: &str, out: &mut String) {
+    print_scaled_into(d, out);
+    match order {
+        Order::Normal => out.push_str(unit),
+        Order::Fil => out.push_str("fil"),
+        Order::Fill => out.push_str("fill"),
+        Order::Filll => out.push_str("filll"),
+    }
+}
+
+/// §178 print_spec(p, "pt")
+pub fn print_spec(g: &Glue) -> String {
+    let mut out = String::new();
+    print_scaled_into(g.width, &mut out);
+    out.push_str("pt");
+    if g.stretch != 0 {
+        out.push_str(" plus ");
+        print_glue(g.stretch, g.stretch_order, "pt", &mut out);
+    }
+    if g.shrink != 0 {
+        out.push_str(" minus ");
+        print_glue(g.shrink, g.shrink_order, "pt", &mut out);
+    }
+    out
+}
+
+// ------------------------------------------------------------------------------------------
+// Arithmetic §104-107
+// ------------------------------------------------------------------------------------------
+
+/// TeX's global arithmetic status.
+#[derive(Clone, Copy, Debug, Default, PartialEq, Eq)]
+pub struct Arith {
+    pub arith_error: bool,
+    pub remainder: i64,
+    /// An algorithm had to negate -2^31 (implementation-defined in TeX82).
+    pub ambiguous: bool,
+}
+
+impl Arith {
+    pub fn negate(&mut self, v: i64) -> i64 {
+        if v == MIN32 {
+            self.ambiguous = true;
+        }
+        -v
+    }
+}
+
+/// §105 mult_and_add: `n*x+y`, or arith_error if the magnitude would exceed `max_answer`.
+pub fn mult_and_add(a: &mut Arith, mut n: i64, mut x: i64, y: i64, max_answer: i64) -> i64 {
+    if n < 0 {
+        x = a.negate(x);
+        n = a.negate(n);
+    }
+    if n == 0 {
+        return y;
+    }
+    // the test evaluates -x: implementation-defined for x = -2^31
+    if x == MIN32 {
+        a.ambiguous = true;
+    }
+    // Pascal's div truncates toward zero, like Rust's /
+    if x <= (max_answer - y) / n && -x <= (max_answer + y) / n {
+        n * x + y
+    } else {
+        a.arith_error = true;
+        0
+    }
+}
+
+/// `nx_plus_y(n,x,y) == mult_and_add(n,x,y,2^30-1)`
+pub fn nx_plus_y(a: &mut Arith, n: i64, x: i64, y: i64) -> i64 {
+    mult_and_add(a, n, x, y, MAX_DIMEN)
+}
+
+/// `mult_integers(n,x) == mult_and_add(n,x,0,2^31-1)`
+pub fn mult_integers(a: &mut Arith, n: i64, x: i64) -> i64 {
+    mult_and_add(a, n, x, 0, INFINITY)
+}
+
+/// §106 x_over_n: truncation toward zero, remainder with the sign of x.
+pub fn x_over_n(a: &mut Arith, mut x: i64, mut n: i64) -> i64 {
+    let mut negative = false;
+    let result;
+    if n == 0 {
+        a.arith_error = true;
+        result = 0;
+        a.remainder = x;
+    } else {
+        if n < 0 {
+            x = a.negate(x);
+            n = a.negate(n);
+            negative = true;
+        }
+        if x >= 0 {
+            result = x / n;
+            a.remainder = x % n;
+        } else {
+            let mx = a.negate(x);
+            result = -(mx / n);
+            a.remainder = -(mx % n);
+        }
+    }
+    if negative {
+        a.remainder = -a.remainder;
+    }
+    result
+}
+
+/// §107 xn_over_d, literal transcription of Knuth's 15-bit splitting (0 <= n,d <= 2^16, d > 0).
+pub fn xn_over_d(a: &mut Arith, mut x: i64, n: i64, d: i64) -> i64 {
+    let positive;
+    if x >= 0 {
+        positive = true;
+    } else {
+        x = a.negate(x);
+        positive = false;
+    }
+    let t = (x % 0o100000) * n;
+    let mut u = (x / 0o100000) * n + (t / 0o100000);
+    let v = (u % d) * 0o100000 + (t % 0o100000);
+    if u / d >= 0o100000 {
+        a.arith_error = true;
+    } else {
+        u = 0o100000 * (u / d) + (v / d);
+    }
+    if positive {
+        a.remainder = v % d;
+        u
+    } else {
+        a.remainder = -(v % d);
+        -u
+    }
+}
+
+/// Second formulation of §107 in plain 64-bit arithmetic: (quotient, remainder, arith_error).
+pub fn xn_over_d_exact(x: i64, n: i64, d: i64) -> (i64, i64, bool) {
+    let p = x * n;
+    let q = p / d;
+    let r = p % d;
+    (q, r, q.abs() >= 1 << 30)
+}
+
+// ------------------------------------------------------------------------------------------
+// Tokens
+// ------------------------------------------------------------------------------------------
+
+#[derive(Clone, Debug, PartialEq, Eq, Hash)]
+pub enum Tok {
+    Letter(u8),
+    Other(u8),
+    Space,
+    Cs(String),
+}
+
+/// Out of domain: TeX's behaviour involves an error (or a feature) the model does not cover.
+#[derive(Clone, Debug, PartialEq, Eq)]
+pub struct Ood(pub String);
+
+fn ood<T>(s: &str) -> Result<T, Ood> {
+    Err(Ood(s.to_string()))
+}
+
+/// TeX's lexer §343-355 for one line of printable ASCII under plain TeX's category codes,
+/// restricted to escape / letter / other / space (any other category: out of domain).
+/// The end-of-line character is *not* appended: callers terminate their text with a control word.
+pub fn lex(src: &str) -> Result<Vec<Tok>, Ood> {
+    #[derive(PartialEq)]
+    enum St {
+        NewLine,
+        MidLine,
+        SkipBlanks,
+    }
+    let b = src.as_bytes();
+    let mut out = vec![];
+    let mut st = St::NewLine;
+    let mut i = 0;
+    while i < b.len() {
+        let c = b[i];
+        i += 1;
+        match c {
+            b'\\' => {
+                if i >= b.len() {
+                    return ood("escape character at end of line");
+                }
+                if b[i].is_ascii_alphabetic() {
+                    let start = i;
+                    while i < b.len() && b[i].is_ascii_alphabetic() {
+                        i += 1;
+                    }
+                    out.push(Tok::Cs(src[start..i].to_string()));
+                    st = St::SkipBlanks;
+                } else {
+                    let ch = b[i];
+                    if !(32..127).contains(&ch) || ch == b'^' {
+                        return ood("control symbol outside the modelled set");
+                    }
+                    i += 1;
+                    out.push(Tok::Cs((ch as char).to_string()));
+                    st = if ch == b' ' { St::SkipBlanks } else { St::MidLine };
+                }
+            }
+            b' ' => {
+                if st == St::MidLine {
+                    out.push(Tok::Space);
+                    st = St::SkipBlanks;
+                }
+            }
+            b'a'..=b'z' | b'A'..=b'Z' => {
+                out.push(Tok::Letter(c));
+                st = St::MidLine;
+            }
+            b'{' | b'}' | b'$' | b'&' | b'#' | b'^' | b'_' | b'~' | b'%' => {
+                return ood("character with a special category code");
+            }
+            33..=126 => {
+                out.push(Tok::Other(c));
+                st = St::MidLine;
+            }
+            _ => return ood("non printable character"),
+        }
+    }
+    Ok(out)
+}
+
+// ------------------------------------------------------------------------------------------
+// The machine
+// ------------------------------------------------------------------------------------------
+
+pub const NREGS: usize = 8;
+
+#[derive(Clone, Debug, PartialEq, Eq)]
+pub struct Regs {
+    pub count: [i64; NREGS],
+    pub dimen: [i64; NREGS],
+    pub skip: [Glue; NREGS],
+}
+
+impl Default for Regs {
+    fn default() -> Self {
+        Regs {
+            count: [0; NREGS],
+            dimen: [0; NREGS],
+            skip: [Glue::ZERO; NREGS],
+        }
+    }
+}
+
+#[derive(Clone, Copy, Debug, PartialEq, Eq, Hash, PartialOrd, Ord)]
+pub enum ErrKind {
+    /// §445 "Number too big"
+    NumberTooBig,
+    /// §460 "Dimension too large"
+    DimensionTooLarge,
+    /// §1236 "Arithmetic overflow" raised by \multiply
+    OverflowMultiply,
+    /// §1236 "Arithmetic overflow" raised by \divide (division by zero)
+    OverflowDivide,
+    /// §454 "Illegal unit of measure (replaced by filll)"
+    IllegalFilll,
+}
+
+#[derive(Clone, Copy, Debug, PartialEq, Eq, Hash)]
+pub enum Kind {
+    Count,
+    Dimen,
+    Skip,
+}
+
+#[derive(Clone, Copy, Debug, PartialEq)]
+pub enum Val {
+    Int(i64),
+    Dimen(i64),
+    Glue(Glue),
+}
+
+#[derive(Clone, Copy, PartialEq, Eq, PartialOrd, Ord)]
+enum Level {
+    Int,
+    Dimen,
+    Glue,
+}
+
+/// Single TeX rules replaced by what the implementation under test does today.
+#[derive(Clone, Copy, Debug, Default, PartialEq, Eq)]
+pub struct Deviations {
+    /// `\multiply` on \count accepts a product of exactly -2^31 (TeX §105: arith_error).
+    pub mult_accepts_min: bool,
+    /// `\advance` on glue: a zero stretch/shrink of higher order wins (TeX §1239: a zero amount
+    /// never carries its order over).
+    pub glue_add_keeps_zero_order: bool,
+    /// An internal dimension (or glue coerced to one) used as a <dimen> is not range checked
+    /// (TeX §448 `attach_sign`: |v| >= 2^30 => "Dimension too large", max_dimen).
+    pub internal_dimen_unchecked: bool,
+    /// Overflow of <factor><internal unit> clamps to -max_dimen when the unit is negative
+    /// (TeX: +max_dimen, then the sign string).
+    pub internal_unit_clamp_sign: bool,
+}
+
+pub const DEVIATION_NAMES: [&str; 4] = [
+    "mult_accepts_min",
+    "glue_add_keeps_zero_order",
+    "internal_dimen_unchecked",
+    "internal_unit_clamp_sign",
+];
+
+impl Deviations {
+    pub fn from_mask(m: u32) -> Deviations {
+        Deviations {
+            mult_accepts_min: m & 1 != 0,
+            glue_add_keeps_zero_order: m & 2 != 0,
+            internal_dimen_unchecked: m & 4 != 0,
+            internal_unit_clamp_sign: m & 8 != 0,
+        }
+    }
+}
+
+pub struct Machine {
+    /// Remaining input, reversed (next token is last).
+    input: Vec<Tok>,
+    pub regs: Regs,
+    pub em: i64,
+    pub ex: i64,
+    pub errors: Vec<ErrKind>,
+    pub arith: Arith,
+    pub dev: Deviations,
+    /// Bit i set: deviation i's rule was reached with an input on which it differs from TeX.
+    pub fired: u32,
+    // TeX globals
+    cur_tok: Tok,
+    radix: u8,
+    cur_order: Order,
+    /// Which scanning features were exercised (for evidence counters).
+    pub seen: Seen,
+}
+
+#[derive(Clone, Debug, Default, PartialEq, Eq)]
+pub struct Seen {
+    pub radix8: u32,
+    pub radix10: u32,
+    pub radix16: u32,
+    pub alpha_char: u32,
+    pub alpha_cs: u32,
+    pub negative_signs: u32,
+    pub multi_signs: u32,
+    pub fraction_digits_max: u32,
+    pub fractions: u32,
+    pub fraction_over_17: u32,
+    pub comma_point: u32,
+    pub units: Vec<&'static str>,
+    pub fil_orders: Vec<u8>,
+    pub internal_int: u32,
+    pub internal_dimen: u32,
+    pub internal_glue: u32,
+    pub coerce_glue_to_dimen: u32,
+    pub coerce_dimen_to_int: u32,
+    pub coerce_glue_to_int: u32,
+    pub int_as_dimen_factor: u32,
+    pub internal_unit: u32,
+    pub the_expansions: u32,
+    pub wrapped_advance: u32,
+}
+
+type R<T> = Result<T, Ood>;
+
+impl Machine {
+    pub fn new(tokens: Vec<Tok>, regs: Regs, dev: Deviations) -> Machine {
+        let mut input = tokens;
+        input.reverse();
+        Machine {
+            input,
+            regs,
+            em: 12 * UNITY,
+            ex: 12 * UNITY,
+            errors: vec![],
+            arith: Arith::default(),
+            dev,
+            fired: 0,
+            cur_tok: Tok::Space,
+            radix: 0,
+            cur_order: Order::Normal,
+            seen: Seen::default(),
+        }
+    }
+
+    pub fn remaining(&self) -> Vec<Tok> {
+        let mut v = self.input.clone();
+        v.reverse();
+        v
+    }
+
+    // ---- token access -------------------------------------------------------------------
+
+    /// get_next: no expansion.
+    fn get_next(&mut self) -> R<()> {
+        match self.input.pop() {
+            Some(t) => {
+                self.cur_tok = t;
+                Ok(())
+            }
+            None => ood("scanner ran off the end of the input"),
+        }
+    }
+
+    /// get_x_token §380: the only expandable command of the model is `\the`.
+    fn get_x_token(&mut self) -> R<()> {
+        loop {
+            self.get_next()?;
+            if self.cur_tok == Tok::Cs("the".into()) {
+                self.expand_the()?;
+                continue;
+            }
+            return Ok(());
+        }
+    }
+
+    fn back_input(&mut self) {
+        self.input.push(self.cur_tok.clone());
+    }
+
+    fn internal_kind(t: &Tok) -> Option<Kind> {
+        match t {
+            Tok::Cs(s) if s == "count" => Some(Kind::Count),
+            Tok::Cs(s) if s == "dimen" => Some(Kind::Dimen),
+            Tok::Cs(s) if s == "skip" => Some(Kind::Skip),
+            _ => None,
+        }
+    }
+
+    /// §465 the_toks + §464 str_toks: spaces get category 10, everything else category 12.
+    fn expand_the(&mut self) -> R<()> {
+        self.get_x_token()?;
+        let Some(kind) = Self::internal_kind(&self.cur_tok) else {
+            return ood("\\the followed by something that is not a register");
+        };
+        let text = match self.fetch_register(kind)? {
+            Val::Int(i) => print_int(i),
+            Val::Dimen(d) => {
+                let mut s = print_scaled(d);
+                s.push_str("pt");
+                s
+            }
+            Val::Glue(g) => print_spec(&g),
+        };
+        self.seen.the_expansions += 1;
+        for c in text.bytes().rev() {
+            self.input.push(if c == b' ' { Tok::Space } else { Tok::Other(c) });
+        }
+        Ok(())
+    }
+
+    // ---- §407 scan_keyword -----------------------------------------------------------------
+
+    fn scan_keyword(&mut self, s: &str) -> R<bool> {
+        let bytes = s.as_bytes();
+        let mut backup: Vec<Tok> = vec![];
+        let mut k = 0;
+        while k < bytes.len() {
+            self.get_x_token()?;
+            // (cur_cs=0) and ((cur_chr=s[k]) or (cur_chr=s[k]-"a"+"A")): any category code
+            let matches = match &self.cur_tok {
+                Tok::Letter(c) | Tok::Other(c) => *c == bytes[k] || *c == bytes[k] - b'a' + b'A',
+                _ => false,
+            };
+            if matches {
+                backup.push(self.cur_tok.clone());
+                k += 1;
+            } else if self.cur_tok != Tok::Space || !backup.is_empty() {
+                self.back_input();
+                for t in backup.into_iter().rev() {
+                    self.input.push(t);
+                }
+                return Ok(false);
+            }
+        }
+        Ok(true)
+    }
+
+    /// §443 Scan an optional space
+    fn scan_optional_space(&mut self) -> R<()> {
+        self.get_x_token()?;
+        if self.cur_tok != Tok::Space {
+            self.back_input();
+        }
+        Ok(())
+    }
+
+    /// §406 Get the next non-blank non-call token
+    fn get_next_non_blank(&mut self) -> R<()> {
+        loop {
+            self.get_x_token()?;
+            if self.cur_tok != Tok::Space {
+                return Ok(());
+            }
+        }
+    }
+
+    /// §441 Get the next non-blank non-sign token; returns `negative`.
+    fn get_next_non_blank_non_sign(&mut self) -> R<bool> {
+        let mut negative = false;
+        let mut signs = 0;
+        loop {
+            self.get_next_non_blank()?;
+            if self.cur_tok == Tok::Other(b'-') {
+                negative = !negative;
+                self.cur_tok = Tok::Other(b'+');
+            }
+            if self.cur_tok != Tok::Other(b'+') {
+                break;
+            }
+            signs += 1;
+        }
+        if negative {
+            self.seen.negative_signs += 1;
+        }
+        if signs > 1 {
+            self.seen.multi_signs += 1;
+        }
+        Ok(negative)
+    }
+
+    fn error(&mut self, e: ErrKind) {
+        self.errors.push(e);
+    }
+
+    // ---- §413 scan_something_internal (registers) -----------------------------------------
+
+    /// `\count`, `\dimen`, `\skip` followed by scan_eight_bit_int (the model has NREGS registers).
+    fn fetch_register(&mut self, kind: Kind) -> R<Val> {
+        let n = self.scan_int()?;
+        if n < 0 || n >= NREGS as i64 {
+            return ood("register number outside the model's registers");
+        }
+        let n = n as usize;
+        Ok(match kind {
+            Kind::Count => Val::Int(self.regs.count[n]),
+            Kind::Dimen => Val::Dimen(self.regs.dimen[n]),
+            Kind::Skip => Val::Glue(self.regs.skip[n]),
+        })
+    }
+
+    fn scan_something_internal(&mut self, level: Level, negative: bool, kind: Kind) -> R<Val> {
+        let mut v = self.fetch_register(kind)?;
+        match v {
+            Val::Int(_) => self.seen.internal_int += 1,
+            Val::Dimen(_) => self.seen.internal_dimen += 1,
+            Val::Glue(_) => self.seen.internal_glue += 1,
+        }
+        // §429 Convert cur_val to a lower level
+        loop {
+            v = match (v, level) {
+                (Val::Glue(g), Level::Int) => {
+                    self.seen.coerce_glue_to_int += 1;
+                    Val::Int(g.width)
+                }
+                (Val::Glue(g), Level::Dimen) => {
+                    self.seen.coerce_glue_to_dimen += 1;
+                    Val::Dimen(g.width)
+                }
+                (Val::Dimen(d), Level::Int) => {
+                    self.seen.coerce_dimen_to_int += 1;
+                    Val::Int(d)
+                }
+                _ => break,
+            };
+        }
+        // §430 Fix the reference count, if any, and negate cur_val if negative
+        if negative {
+            v = match v {
+                Val::Glue(g) => Val::Glue(Glue {
+                    // §431 Negate all three glue components of cur_val
+                    width: self.arith.negate(g.width),
+                    stretch: self.arith.negate(g.stretch),
+                    shrink: self.arith.negate(g.shrink),
+                    ..g
+                }),
+                Val::Dimen(d) => Val::Dimen(self.arith.negate(d)),
+                Val::Int(i) => Val::Int(self.arith.negate(i)),
+            };
+        }
+        Ok(v)
+    }
+
+    // ---- §440 scan_int ----------------------------------------------------------------------
+
+    pub fn scan_int(&mut self) -> R<i64> {
+        self.radix = 0;
+        let mut ok_so_far = true;
+        let negative = self.get_next_non_blank_non_sign()?;
+        let mut cur_val: i64;
+        if self.cur_tok == Tok::Other(b'`') {
+            // §442 Scan an alphabetic character code into cur_val: get_token, *no* expansion
+            self.get_next()?;
+            cur_val = match &self.cur_tok {
+                Tok::Cs(name) if name.len() == 1 => {
+                    self.seen.alpha_cs += 1;
+                    name.as_bytes()[0] as i64
+                }
+                Tok::Cs(_) => return ood("improper alphabetic constant"),
+                Tok::Letter(c) | Tok::Other(c) => {
+                    self.seen.alpha_char += 1;
+                    *c as i64
+                }
+                Tok::Space => 32,
+            };
+            self.scan_optional_space()?;
+        } else if let Some(kind) = Self::internal_kind(&self.cur_tok) {
+            cur_val = match self.scan_something_internal(Level::Int, false, kind)? {
+                Val::Int(i) => i,
+                _ => unreachable!("coerced to int"),
+            };
+        } else {
+            // §444 Scan a numeric constant
+            self.radix = 10;
+            let mut m: i64 = 214748364;
+            if self.cur_tok == Tok::Other(b'\'') {
+                self.radix = 8;
+                m = 0o2000000000;
+                self.get_x_token()?;
+            } else if self.cur_tok == Tok::Other(b'"') {
+                self.radix = 16;
+                m = 0o1000000000;
+                self.get_x_token()?;
+            }
+            let mut vacuous = true;
+            cur_val = 0;
+            // §445 Accumulate the constant until cur_tok is not a suitable digit
+            loop {
+                let d: i64 = match &self.cur_tok {
+                    Tok::Other(c) if c.is_ascii_digit() && (*c - b'0') < self.radix => {
+                        (*c - b'0') as i64
+                    }
+                    Tok::Letter(c) | Tok::Other(c)
+                        if self.radix == 16 && (b'A'..=b'F').contains(c) =>
+                    {
+                        (*c - b'A') as i64 + 10
+                    }
+                    _ => break,
+                };
+                vacuous = false;
+                if cur_val >= m && (cur_val > m || d > 7 || self.radix != 10) {
+                    if ok_so_far {
+                        self.error(ErrKind::NumberTooBig);
+                        cur_val = INFINITY;
+                        ok_so_far = false;
+                    }
+                } else {
+                    cur_val = cur_val * self.radix as i64 + d;
+                }
+                self.get_x_token()?;
+            }
+            if vacuous {
+                return ood("missing number");
+            } else if self.cur_tok != Tok::Space {
+                self.back_input();
+            }
+            match self.radix {
+                8 => self.seen.radix8 += 1,
+                16 => self.seen.radix16 += 1,
+                _ => self.seen.radix10 += 1,
+            }
+        }
+        if negative {
+            cur_val = self.arith.negate(cur_val);
+        }
+        Ok(cur_val)
+    }
+
+    // ---- §448 scan_dimen ----------------------------------------------------------------------
+
+    /// scan_dimen(mu=false, inf, shortcut). `shortcut = Some(v)`: cur_val already holds an integer.
+    /// The glue order found is left in `self.cur_order`.
+    fn scan_dimen(&mut self, inf: bool, shortcut: Option<i64>) -> R<i64> {
+        let mut f: i64 = 0;
+        self.arith.arith_error = false;
+        self.cur_order = Order::Normal;
+        let mut negative = false;
+        let mut cur_val: i64;
+        // `direct`: control reached attach_sign from §449 with an internal dimension
+        let mut direct = false;
+        let mut at_attach_sign = false;
+        match shortcut {
+            Some(v) => cur_val = v,
+            None => {
+                negative = self.get_next_non_blank_non_sign()?;
+                if let Some(kind) = Self::internal_kind(&self.cur_tok) {
+                    // §449 Fetch an internal dimension and goto attach_sign, or fetch an
+                    // internal integer
+                    match self.scan_something_internal(Level::Dimen, false, kind)? {
+                        Val::Dimen(d) => {
+                            cur_val = d;
+                            direct = true;
+                            at_attach_sign = true;
+                        }
+                        Val::Int(i) => {
+                            cur_val = i;
+                            self.seen.int_as_dimen_factor += 1;
+                        }
+                        Val::Glue(_) => unreachable!("coerced to dimen"),
+                    }
+                } else {
+                    self.back_input();
+                    if self.cur_tok == Tok::Other(b',') {
+                        self.cur_tok = Tok::Other(b'.');
+                        self.seen.comma_point += 1;
+                    }
+                    if self.cur_tok != Tok::Other(b'.') {
+                        cur_val = self.scan_int()?;
+                    } else {
+                        self.radix = 10;
+                        cur_val = 0;
+                    }
+                    if self.cur_tok == Tok::Other(b',') {
+                        self.cur_tok = Tok::Other(b'.');
+                        self.seen.comma_point += 1;
+                    }
+                    if self.radix == 10 && self.cur_tok == Tok::Other(b'.') {
+                        // §452 Scan decimal fraction
+                        let mut digits: Vec<u8> = vec![];
+                        let mut total = 0u32;
+                        self.get_next()?; // point_token is being re-scanned
+                        loop {
+                            self.get_x_token()?;
+                            let d = match &self.cur_tok {
+                                Tok::Other(c) if c.is_ascii_digit() => *c - b'0',
+                                _ => break,
+                            };
+                            total += 1;
+                            if digits.len() < 17 {
+                                // digits for k>=17 cannot affect the result
+                                digits.push(d);
+                            }
+                        }
+                        f = round_decimals(&digits);
+                        if self.cur_tok != Tok::Space {
+                            self.back_input();
+                        }
+                        self.seen.fractions += 1;
+                        self.seen.fraction_digits_max = self.seen.fraction_digits_max.max(total);
+                        if total > 17 {
+                            self.seen.fraction_over_17 += 1;
+                        }
+                    }
+                }
+            }
+        }
+        if !at_attach_sign {
+            if cur_val < 0 {
+                // in this case f=0
+                negative = !negative;
+                cur_val = self.arith.negate(cur_val);
+            }
+            // §453 Scan units and set cur_val to x*(cur_val+f/2^16) ...
+            let (v, goto_attach_sign, clamp_negative) = self.scan_units(inf, cur_val, f)?;
+            cur_val = v;
+            if !goto_attach_sign {
+                self.scan_optional_space()?;
+            }
+            // attach_sign, reached from the units
+            if self.arith.arith_error || cur_val.abs() >= 1 << 30 {
+                self.error(ErrKind::DimensionTooLarge);
+                cur_val = MAX_DIMEN;
+                self.arith.arith_error = false;
+                if clamp_negative {
+                    // deviation internal_unit_clamp_sign (see scan_units)
+                    cur_val = -MAX_DIMEN;
+                }
+            }
+        } else {
+            // attach_sign, reached directly with an internal dimension
+            debug_assert!(direct);
+            if cur_val.abs() >= 1 << 30 {
+                self.fired |= 4;
+                if !self.dev.internal_dimen_unchecked {
+                    self.error(ErrKind::DimensionTooLarge);
+                    cur_val = MAX_DIMEN;
+                }
+            }
+        }
+        if negative {
+            cur_val = self.arith.negate(cur_val);
+        }
+        Ok(cur_val)
+    }
+
+    /// §453-458. Returns (cur_val, control went straight to attach_sign, deviation: clamp to
+    /// -max_dimen on overflow).
+    fn scan_units(&mut self, inf: bool, mut cur_val: i64, mut f: i64) -> R<(i64, bool, bool)> {
+        // §454 Scan for fil units; goto attach_fraction if found
+        if inf && self.scan_keyword("fil")? {
+            self.cur_order = Order::Fil;
+            while self.scan_keyword("l")? {
+                if self.cur_order == Order::Filll {
+                    self.error(ErrKind::IllegalFilll);
+                } else {
+                    self.cur_order = match self.cur_order {
+                        Order::Fil => Order::Fill,
+                        _ => Order::Filll,
+                    };
+                }
+            }
+            let o = self.cur_order.index();
+            if !self.seen.fil_orders.contains(&o) {
+                self.seen.fil_orders.push(o);
+            }
+            return Ok((self.attach_fraction(cur_val, f), false, false));
+        }
+        // §455 Scan for units that are internal dimensions; goto attach_sign with cur_val set
+        let save_cur_val = cur_val;
+        self.get_next_non_blank()?;
+        let mut found: Option<i64> = None;
+        if let Some(kind) = Self::internal_kind(&self.cur_tok) {
+            let v = match self.scan_something_internal(Level::Dimen, false, kind)? {
+                Val::Int(i) => i,
+                Val::Dimen(d) => d,
+                Val::Glue(_) => unreachable!("coerced to dimen"),
+            };
+            self.seen.internal_unit += 1;
+            found = Some(v);
+        } else {
+            self.back_input();
+            if self.scan_keyword("em")? {
+                self.note_unit("em");
+                self.scan_optional_space()?;
+                found = Some(self.em);
+            } else if self.scan_keyword("ex")? {
+                self.note_unit("ex");
+                self.scan_optional_space()?;
+                found = Some(self.ex);
+            }
+        }
+        if let Some(v) = found {
+            let y = xn_over_d(&mut self.arith, v, f, 0o200000);
+            cur_val = nx_plus_y(&mut self.arith, save_cur_val, v, y);
+            let mut clamp_negative = false;
+            if self.arith.arith_error && v < 0 {
+                self.fired |= 8;
+                clamp_negative = self.dev.internal_unit_clamp_sign;
+            }
+            return Ok((cur_val, true, clamp_negative));
+        }
+        // §457: `true` is outside the quantifier
+        if self.scan_keyword("true")? {
+            return ood("true units");
+        }
+        if self.scan_keyword("pt")? {
+            self.note_unit("pt");
+            return Ok((self.attach_fraction(cur_val, f), false, false));
+        }
+        // §458 Scan for all other units and adjust cur_val and f accordingly; goto done in the
+        // case of scaled points
+        let (num, denom): (i64, i64);
+        if self.scan_keyword("in")? {
+            self.note_unit("in");
+            (num, denom) = (7227, 100);
+        } else if self.scan_keyword("pc")? {
+            self.note_unit("pc");
+            (num, denom) = (12, 1);
+        } else if self.scan_keyword("cm")? {
+            self.note_unit("cm");
+            (num, denom) = (7227, 254);
+        } else if self.scan_keyword("mm")? {
+            self.note_unit("mm");
+            (num, denom) = (7227, 2540);
+        } else if self.scan_keyword("bp")? {
+            self.note_unit("bp");
+            (num, denom) = (7227, 7200);
+        } else if self.scan_keyword("dd")? {
+            self.note_unit("dd");
+            (num, denom) = (1238, 1157);
+        } else if self.scan_keyword("cc")? {
+            self.note_unit("cc");
+            (num, denom) = (14856, 1157);
+        } else if self.scan_keyword("sp")? {
+            self.note_unit("sp");
+            return Ok((cur_val, false, false)); // goto done
+        } else {
+            return ood("illegal unit of measure");
+        }
+        cur_val = xn_over_d(&mut self.arith, cur_val, num, denom);
+        f = (num * f + 0o200000 * self.arith.remainder) / denom;
+        cur_val += f / 0o200000;
+        f %= 0o200000;
+        Ok((self.attach_fraction(cur_val, f), false, false))
+    }
+
+    fn note_unit(&mut self, u: &'static str) {
+        if !self.seen.units.contains(&u) {
+            self.seen.units.push(u);
+        }
+    }
+
+    /// attach_fraction: if cur_val>=@'40000 then arith_error:=true else cur_val:=cur_val*unity+f
+    fn attach_fraction(&mut self, cur_val: i64, f: i64) -> i64 {
+        if cur_val >= 0o40000 {
+            self.arith.arith_error = true;
+            cur_val
+        } else {
+            cur_val * UNITY + f
+        }
+    }
+
+    // ---- §461 scan_glue(glue_val) ------------------------------------------------------------
+
+    fn scan_glue(&mut self) -> R<Glue> {
+        let negative = self.get_next_non_blank_non_sign()?;
+        let width: i64;
+        if let Some(kind) = Self::internal_kind(&self.cur_tok) {
+            match self.scan_something_internal(Level::Glue, negative, kind)? {
+                Val::Glue(g) => return Ok(g),
+                Val::Int(i) => width = self.scan_dimen(false, Some(i))?,
+                Val::Dimen(d) => width = d,
+            }
+        } else {
+            self.back_input();
+            let w = self.scan_dimen(false, None)?;
+            width = if negative { self.arith.negate(w) } else { w };
+        }
+        // §462 Create a new glue specification whose width is cur_val; scan for its stretch and
+        // shrink components
+        let mut q = Glue {
+            width,
+            ..Glue::ZERO
+        };
+        if self.scan_keyword("plus")? {
+            q.stretch = self.scan_dimen(true, None)?;
+            q.stretch_order = self.cur_order;
+        }
+        if self.scan_keyword("minus")? {
+            q.shrink = self.scan_dimen(true, None)?;
+            q.shrink_order = self.cur_order;
+        }
+        Ok(q)
+    }
+
+    // ---- §1236 do_register_command ------------------------------------------------------------
+
+    /// Executes exactly one statement: `\count n [=] <number>`, `\dimen n [=] <dimen>`,
+    /// `\skip n [=] <glue>`, or `\advance|\multiply|\divide <register> [by] <operand>`.
+    pub fn do_register_command(&mut self) -> R<()> {
+        self.get_x_token()?;
+        #[derive(PartialEq, Clone, Copy)]
+        enum Q {
+            Register,
+            Advance,
+            Multiply,
+            Divide,
+        }
+        let q = match &self.cur_tok {
+            Tok::Cs(s) if s == "advance" => Q::Advance,
+            Tok::Cs(s) if s == "multiply" => Q::Multiply,
+            Tok::Cs(s) if s == "divide" => Q::Divide,
+            t if Self::internal_kind(t).is_some() => Q::Register,
+            _ => return ood("not a register command"),
+        };
+        if q != Q::Register {
+            self.get_x_token()?;
+        }
+        let Some(p) = Self::internal_kind(&self.cur_tok) else {
+            return ood("arithmetic on something that is not a register");
+        };
+        // scan_eight_bit_int
+        let l = self.scan_int()?;
+        if l < 0 || l >= NREGS as i64 {
+            return ood("register number outside the model's registers");
+        }
+        let l = l as usize;
+        if q == Q::Register {
+            // §405 scan_optional_equals
+            self.get_next_non_blank()?;
+            if self.cur_tok != Tok::Other(b'=') {
+                self.back_input();
+            }
+        } else {
+            let _ = self.scan_keyword("by")?;
+        }
+        self.arith.arith_error = false;
+        match q {
+            Q::Register | Q::Advance => {
+                // §1238 Compute result of register or advance, put it in cur_val
+                match p {
+                    Kind::Count => {
+                        let mut v = self.scan_int()?;
+                        if q == Q::Advance {
+                            v = self.wrap32(v + self.regs.count[l]);
+                        }
+                        self.regs.count[l] = v;
+                    }
+                    Kind::Dimen => {
+                        // scan_normal_dimen
+                        let mut v = self.scan_dimen(false, None)?;
+                        if q == Q::Advance {
+                            v = self.wrap32(v + self.regs.dimen[l]);
+                        }
+                        self.regs.dimen[l] = v;
+                    }
+                    Kind::Skip => {
+                        let mut g = self.scan_glue()?;
+                        if q == Q::Advance {
+                            g = self.add_glue(g, self.regs.skip[l]);
+                        }
+                        self.regs.skip[l] = g;
+                    }
+                }
+                // scan_int/scan_dimen leave arith_error cleared; nothing to report here
+            }
+            Q::Multiply | Q::Divide => {
+                // §1240 Compute result of multiply or divide, put it in cur_val
+                let n = self.scan_int()?;
+                self.arith.arith_error = false;
+                let kind_err = if q == Q::Multiply {
+                    ErrKind::OverflowMultiply
+                } else {
+                    ErrKind::OverflowDivide
+                };
+                match p {
+                    Kind::Count => {
+                        let old = self.regs.count[l];
+                        let v = if q == Q::Multiply {
+                            let mut v = mult_integers(&mut self.arith, old, n);
+                            if self.arith.arith_error && old * n == MIN32 {
+                                self.fired |= 1;
+                                if self.dev.mult_accepts_min {
+                                    self.arith.arith_error = false;
+                                    v = MIN32;
+                                }
+                            }
+                            v
+                        } else {
+                            x_over_n(&mut self.arith, old, n)
+                        };
+                        if self.arith.arith_error {
+                            self.error(kind_err);
+                        } else {
+                            self.regs.count[l] = v;
+                        }
+                    }
+                    Kind::Dimen => {
+                        let old = self.regs.dimen[l];
+                        let v = if q == Q::Multiply {
+                            nx_plus_y(&mut self.arith, old, n, 0)
+                        } else {
+                            x_over_n(&mut self.arith, old, n)
+                        };
+                        if self.arith.arith_error {
+                            self.error(kind_err);
+                        } else {
+                            self.regs.dimen[l] = v;
+                        }
+                    }
+                    Kind::Skip => {
+                        let s = self.regs.skip[l];
+                        let mut r = s;
+                        if q == Q::Multiply {
+                            r.width = nx_plus_y(&mut self.arith, s.width, n, 0);
+                            r.stretch = nx_plus_y(&mut self.arith, s.stretch, n, 0);
+                            r.shrink = nx_plus_y(&mut self.arith, s.shrink, n, 0);
+                        } else {
+                            r.width = x_over_n(&mut self.arith, s.width, n);
+                            r.stretch = x_over_n(&mut self.arith, s.stretch, n);
+                            r.shrink = x_over_n(&mut self.arith, s.shrink, n);
+                        }
+                        if self.arith.arith_error {
+                            self.error(kind_err);
+                        } else {
+                            self.regs.skip[l] = r;
+                        }
+                    }
+                }
+            }
+        }
+        Ok(())
+    }
+
+    /// `\advance` wraps silently (property statement; TeX82 does not check this addition).
+    fn wrap32(&mut self, v: i64) -> i64 {
+        let w = v as i32 as i64;
+        if w != v {
+            self.seen.wrapped_advance += 1;
+        }
+        w
+    }
+
+    /// §1239 Compute the sum of two glue specs: q = the scanned operand, r = the old value.
+    fn add_glue(&mut self, q: Glue, r: Glue) -> Glue {
+        let tex = add_glue_tex(q, r);
+        let today = add_glue_today(q, r);
+        for (a, b) in [(q.width, r.width), (q.stretch, r.stretch), (q.shrink, r.shrink)] {
+            if (a + b) as i32 as i64 != a + b {
+                self.seen.wrapped_advance += 1;
+            }
+        }
+        if tex.canonical() != today.canonical() {
+            self.fired |= 2;
+            if self.dev.glue_add_keeps_zero_order {
+                return today;
+            }
+        }
+        tex
+    }
+}
+
+fn wrap32(v: i64) -> i64 {
+    v as i32 as i64
+}
+
+/// §1239 Compute the sum of two glue specs. `q` is the scanned operand (TeX's `cur_val`), `r` the
+/// register's old value. Additions wrap like the other `\advance`s.
+pub fn add_glue_tex(mut q: Glue, r: Glue) -> Glue {
+    q.width = wrap32(q.width + r.width);
+    if q.stretch == 0 {
+        q.stretch_order = Order::Normal;
+    }
+    if q.stretch_order == r.stretch_order {
+        q.stretch = wrap32(q.stretch + r.stretch);
+    } else if q.stretch_order < r.stretch_order && r.stretch != 0 {
+        q.stretch = r.stretch;
+        q.stretch_order = r.stretch_order;
+    }
+    if q.shrink == 0 {
+        q.shrink_order = Order::Normal;
+    }
+    if q.shrink_order == r.shrink_order {
+        q.shrink = wrap32(q.shrink + r.shrink);
+    } else if q.shrink_order < r.shrink_order && r.shrink != 0 {
+        q.shrink = r.shrink;
+        q.shrink_order = r.shrink_order;
+    }
+    q
+}
+
+/// Deviation `glue_add_keeps_zero_order`: what the implementation does today - the higher order
+/// wins whatever the amounts, equal orders add.
+pub fn add_glue_today(mut q: Glue, r: Glue) -> Glue {
+    q.width = wrap32(q.width + r.width);
+    if q.stretch_order == r.stretch_order {
+        q.stretch = wrap32(q.stretch + r.stretch);
+    } else if q.stretch_order < r.stretch_order {
+        q.stretch = r.stretch;
+        q.stretch_order = r.stretch_order;
+    }
+    if q.shrink_order == r.shrink_order {
+        q.shrink = wrap32(q.shrink + r.shrink);
+    } else if q.shrink_order < r.shrink_order {
+        q.shrink = r.shrink;
+        q.shrink_order = r.shrink_order;
+    }
+    q
+}
+
+/// The physical units of §458 other than `sp`: (keyword, num, denom); `pt` is (1,1).
+pub const PHYSICAL_UNITS: [(&str, i64, i64); 8] = [
+    ("pt", 1, 1),
+    ("in", 7227, 100),
+    ("pc", 12, 1),
+    ("cm", 7227, 254),
+    ("mm", 7227, 2540),
+    ("bp", 7227, 7200),
+    ("dd", 1238, 1157),
+    ("cc", 14856, 1157),
+];
+
+/// §458 + `attach_fraction` + the range test at `attach_sign` for `cur_val + f/2^16` units of
+/// num/denom points (cur_val >= 0, 0 <= f < 2^16). `None` = "Dimension too large".
+pub fn physical_unit_to_sp(cur_val: i64, f: i64, num: i64, denom: i64) -> Option<i64> {
+    let mut a = Arith::default();
+    let mut cur_val = xn_over_d(&mut a, cur_val, num, denom);
+    let mut f = (num * f + 0o200000 * a.remainder) / denom;
+    cur_val += f / 0o200000;
+    f %= 0o200000;
+    if cur_val >= 0o40000 {
+        a.arith_error = true;
+    } else {
+        cur_val = cur_val * UNITY + f;
+    }
+    if a.arith_error || cur_val.abs() >= 1 << 30 {
+        None
+    } else {
+        Some(cur_val)
+    }
+}
+
+/// Result of running one statement through the model.
+#[derive(Clone, Debug)]
+pub struct StatementResult {
+    pub regs: Regs,
+    pub errors: Vec<ErrKind>,
+    pub ambiguous: bool,
+    pub fired: u32,
+    pub seen: Seen,
+}
+
+/// Lex `text` (which must end with `\relax`), execute the one register command it contains on
+/// `regs`, and require that exactly the final `\relax` is left over.
+pub fn run_statement(text: &str, regs: &Regs, dev: Deviations) -> Result<StatementResult, Ood> {
+    let toks = lex(text)?;
+    let mut m = Machine::new(toks, regs.clone(), dev);
+    m.do_register_command()?;
+    let rest = m.remaining();
+    if rest != [Tok::Cs("relax".into())] {
+        return Err(Ood(format!("tokens left over after the statement: {rest:?}")));
+    }
+    Ok(StatementResult {
+        regs: m.regs,
+        errors: m.errors,
+        ambiguous: m.arith.ambiguous,
+        fired: m.fired,
+        seen: m.seen,
+    })
+}
+
+/// `\the` of a register (§465).
+pub fn the_register(regs: &Regs, kind: Kind, n: usize) -> String {
+    match kind {
+        Kind::Count => print_int(regs.count[n]),
+        Kind::Dimen => {
+            let mut s = print_scaled(regs.dimen[n]);
+            s.push_str("pt");
+            s
+        }
+        Kind::Skip => print_spec(&regs.skip[n]),
+    }
+}
+
+/// Convenience for calibration: scan `text` as a <dimen> terminated by `\relax`.
+pub fn scan_dimen_text(text: &str) -> Result<(i64, Vec<ErrKind>), Ood> {
+    let toks = lex(&format!("{text}\\relax"))?;
+    let mut m = Machine::new(toks, Regs::default(), Deviations::default());
+    let v = m.scan_dimen(false, None)?;
+    if m.remaining() != [Tok::Cs("relax".into())] {
+        return ood("tokens left over");
+    }
+    Ok((v, m.errors))
+}
+
+/// Convenience for calibration: scan `text` as a <number> terminated by `\relax`.
+pub fn scan_int_text(text: &str) -> Result<(i64, Vec<ErrKind>), Ood> {
+    let toks = lex(&format!("{text}\\relax"))?;
+    let mut m = Machine::new(toks, Regs::default(), Deviations::default());
+    let v = m.scan_int()?;
+    if m.remaining() != [Tok::Cs("relax".into())] {
+        return ood("tokens left over");
+    }
+    Ok((v, m.errors))
+}
+
+/// Convenience for calibration: scan `text` as <glue> terminated by `\relax`.
+pub fn scan_glue_text(text: &str) -> Result<(Glue, Vec<ErrKind>), Ood> {
+    let toks = lex(&format!("{text}\\relax"))?;
+    let mut m = Machine::new(toks, Regs::default(), Deviations::default());
+    let v = m.scan_glue()?;
+    if m.remaining() != [Tok::Cs("relax".into())] {
+        return ood("tokens left over");
+    }
+    Ok((v, m.errors))
+}
+
+#[cfg(test)]
+mod tests {
+    use super::*;
+
+    #[test]
+    fn texbook_facts() {
+        let p = |t: &str| {
+            let (v, e) = scan_dimen_text(t).unwrap();
+            assert!(e.is_empty());
+            print_scaled(v)
+        };
+        assert_eq!(p("1in"), "72.26999");
+        assert_eq!(p("1cm"), "28.45274");
+        assert_eq!(p("1mm"), "2.84526");
+        assert_eq!(p("1bp"), "1.00374");
+        assert_eq!(p("1dd"), "1.07");
+        assert_eq!(p("1cc"), "12.8401");
+        assert_eq!(p("1pc"), "12.0");
+        assert_eq!(p("1sp"), "0.00002");
+        assert_eq!(p("16383.99999pt"), "16383.99998");
+        assert_eq!(p("0.075in"), print_scaled(355207));
+        assert_eq!(scan_dimen_text("16384pt").unwrap(), (MAX_DIMEN, vec![ErrKind::DimensionTooLarge]));
+        assert_eq!(scan_int_text("-2147483648").unwrap(), (-INFINITY, vec![ErrKind::NumberTooBig]));
+        assert_eq!(scan_int_text("\"7FFFFFFF").unwrap(), (INFINITY, vec![]));
+        assert_eq!(scan_int_text("'17777777777").unwrap(), (INFINITY, vec![]));
+        assert_eq!(scan_int_text("- -`\\a").unwrap(), (97, vec![]));
+    }
+
+    #[test]
+    fn statements() {
+        let mut regs = Regs::default();
+        let r = run_statement("\\skip1=1pt plus 0fil\\relax", &regs, Deviations::default()).unwrap();
+        regs = r.regs;
+        let r = run_statement("\\advance\\skip1 by 0pt plus 1pt\\relax", &regs, Deviations::default()).unwrap();
+        assert_eq!(the_register(&r.regs, Kind::Skip, 1), "1.0pt plus 1.0pt");
+        assert_eq!(r.fired, 2);
+        let r = run_statement("\\advance\\skip1 by 0pt plus 1pt\\relax", &regs, Deviations::from_mask(2)).unwrap();
+        assert_eq!(the_register(&r.regs, Kind::Skip, 1), "1.0pt");
+        regs.count[1] = -(1 << 30);
+        let r = run_statement("\\multiply\\count1 by 2\\relax", &regs, Deviations::default()).unwrap();
+        assert_eq!(r.errors, vec![ErrKind::OverflowMultiply]);
+        assert_eq!(r.regs.count[1], -(1 << 30));
+        regs.dimen[2] = -UNITY;
+        let r = run_statement("\\dimen1=1.5\\dimen2\\relax", &regs, Deviations::default()).unwrap();
+        assert_eq!(r.regs.dimen[1], -UNITY * 3 / 2);
+        let r = run_statement("\\dimen1=\\the\\dimen2\\relax", &regs, Deviations::default()).unwrap();
+        assert_eq!(r.regs.dimen[1], -UNITY);
+        let r = run_statement("\\skip1=1pt plus 1fil l L minus 2 FiLl\\relax", &regs, Deviations::default()).unwrap();
+        assert_eq!(the_register(&r.regs, Kind::Skip, 1), "1.0pt plus 1.0filll minus 2.0fill");
+    }
+}
